@@ -34,7 +34,7 @@ def ensure():
     lock = open(os.path.join(OUT, '.lock'), 'w')
     fcntl.flock(lock, fcntl.LOCK_EX)
     try:
-        h = hashlib.sha256(b'recipe-8')
+        h = hashlib.sha256(b'recipe-9')
         for f in sorted(os.listdir(SRC)):
             h.update(f.encode()); h.update(open(os.path.join(SRC, f), 'rb').read())
         stamp = os.path.join(OUT, 'stamp')
@@ -54,6 +54,8 @@ def ensure():
             libs['tool_v%d_exec' % v] = os.path.join(OUT, 'tool_v%d_exec' % v)   # the same, linked as a non-PIE executable (ET_EXEC)
         for v in (0, 1):
             libs['ktree_v%d' % v] = os.path.join(OUT, 'ktree_v%d' % v)           # a directory: fake kernel image plus one module, for abidw --linux-tree
+        for v in (0, 1):
+            libs['emptymod_v%d' % v] = os.path.join(OUT, 'emptymod_v%d.ko' % v)   # a kernel module with debug info that exports nothing
         libs['twice_v0'] = os.path.join(OUT, 'libtwice_v0.so')                 # one source compiled twice with different -D flags
         libs['shapes_clang_v0'] = os.path.join(OUT, 'libshapes_clang_v0.so')
         libs['cxx_clang_v0'] = os.path.join(OUT, 'libcxx_clang_v0.so')
@@ -82,6 +84,8 @@ def ensure():
             os.makedirs(os.path.join(libs['ktree_v%d' % v], 'modules'), exist_ok=True)
             _sh(['gcc', '-g', '-O0', '-nostdlib', '-static', '-fno-pie', '-no-pie', '-DV=%d' % v, os.path.join(SRC, 'fakekernel.c'), '-o', os.path.join(libs['ktree_v%d' % v], 'vmlinux')])
             _sh(['gcc', '-g', '-O0', '-DV=%d' % v, '-c', os.path.join(SRC, 'fakemod.c'), '-o', os.path.join(libs['ktree_v%d' % v], 'modules', 'fakemod.ko')])
+        for v in (0, 1):
+            _sh(['gcc', '-g', '-O0', '-DNOEXPORT', '-DV=%d' % v, '-c', os.path.join(SRC, 'fakemod.c'), '-o', libs['emptymod_v%d' % v]])
         for var in (1, 2):
             _sh(['gcc', '-g', '-O0', '-fPIC', '-DVARIANT=%d' % var, '-c', os.path.join(SRC, 'twice.c'), '-o', os.path.join(OUT, 'twice_%d.o' % var)])
         _sh(['gcc', '-shared', '-Wl,-soname,libtwice.so.1', os.path.join(OUT, 'twice_1.o'), os.path.join(OUT, 'twice_2.o'), '-o', libs['twice_v0']])
